@@ -21,7 +21,7 @@ RULE = ("seeded histories of 1-12 public Sequence operations (all mutators, over
         "entirely clean), stratum B passes the sequences themselves (known aliasing finding). Non-trivial: a mutator ran "
         "while the other view was fresh and that other view was read afterwards.")
 PLAN = {"quick": {"cases": 3000, "jobs": 4, "timeout": 600},
-        "thorough": {"cases": 200000, "jobs": 16, "timeout": 3000, "budget_s": 420}}
+        "thorough": {"cases": 2000000, "jobs": 16, "timeout": 3000, "budget_s": 360}}
 MUTATORS = ["add_abs_cc", "add_abs_note", "add_abs_cap", "add_rel_cc", "add_rel_wait", "add_rel_idx0", "pad", "set_channel", "overwrite_abs",
             "overwrite_rel", "concatenate", "scale", "scale_q", "transpose", "normalise", "quantise", "qnl", "qan", "cutoff",
             "merge", "iter_abs_edit", "iter_rel_edit", "iter_abs_peek_edit", "iter_rel_peek_edit", "iter_abs_peek_edit_break",
